@@ -2,6 +2,7 @@ package main
 
 import (
 	"fmt"
+	"regexp/syntax"
 	"strconv"
 	"go/token"
 	"go/types"
@@ -838,4 +839,544 @@ func ruleC19SameFile(c *Checker) {
 		})
 	}
 	c.check(n > 0, R, "-", "conversion site found", "-", fmt.Sprintf("%d site(s)", n), "no site turns a link entry into a regular-file entry any more")
+}
+
+// ---- round 10 ----
+
+// ruleEntryNameAsSpelled — the unpack side uses the entry name as the archive spells it.
+func ruleEntryNameAsSpelled(id string) func(*Checker) {
+	return func(c *Checker) {
+		c.rule(id, "In the UnpackInfo constructor the header's Name reaches the path that is created through path/filepath functions, slicing and concatenation only: a character-level rewrite of the name (strings.ReplaceAll, Map, ToLower, Replacer, TrimSpace …) on the unpack side alone changes which files come out — a backslash is an ordinary file-name byte on the systems this runs on, and Pack writes it as it is, so `notes\\2024.txt` would come back as a directory `notes`.", 1)
+		p := c.P
+		n := 0
+		for _, fn := range p.Funcs {
+			if fn.Pkg == nil || !strings.HasSuffix(fn.Pkg.Pkg.Path(), "/unpackinfo") {
+				continue
+			}
+			// values derived from header.Name
+			isName := func(v ssa.Value) bool {
+				for w := range p.backSlice(v, 0) {
+					var f *types.Var
+					switch x := w.(type) {
+					case *ssa.FieldAddr:
+						f = fieldOf(x)
+					case *ssa.Field:
+						f = fieldOf(x)
+					}
+					if f != nil && f.Name() == "Name" && f.Pkg() != nil && f.Pkg().Path() == "archive/tar" {
+						return true
+					}
+				}
+				return false
+			}
+			for _, ci := range callsIn(fn) {
+				o := calleeObj(ci)
+				if o == nil || o.Pkg() == nil || o.Pkg().Path() != "strings" {
+					continue
+				}
+				switch o.Name() {
+				case "ReplaceAll", "Replace", "Map", "ToLower", "ToUpper", "ToTitle", "TrimSpace", "Trim", "TrimLeft", "TrimRight", "TrimFunc", "ToValidUTF8", "Title", "Fields":
+				default:
+					if recvTypeName(o) != "Replacer" {
+						continue
+					}
+				}
+				hit := false
+				for _, a := range ci.Common().Args {
+					if isStringType(a.Type()) && isName(a) {
+						hit = true
+					}
+				}
+				if !hit {
+					continue
+				}
+				n++
+				c.fail(id, p.FuncName(fn), "entry name rewritten by strings."+o.Name(), p.Pos(ci.Pos()), "the entry name is rewritten character by character before the path is built: what Unpack creates is no longer what the archive names (and what Pack wrote)")
+			}
+		}
+		c.pass(id, "-", "name rewrites looked for", "-", fmt.Sprintf("%d rewrite(s) of the entry name found", n))
+	}
+}
+
+// ruleMatchByRegexpOnly — a rule matches what its compiled pattern matches.
+func ruleMatchByRegexpOnly(id string) func(*Checker) {
+	return func(c *Checker) {
+		c.rule(id, "The (bool, error) matcher of an ignore rule answers, on every return with a nil error, with the result of (*regexp.Regexp).MatchString of the rule's compiled pattern: a second way of deciding (a 'fast path' comparing path segments for wildcard-free rules) has to agree with the pattern on every path, which a prefix idiom does not — `name/` would also match a plain file called `name`.", 1)
+		p := c.P
+		n := 0
+		for _, fn := range p.Funcs {
+			if fn.Package() == nil || fn.Package().Pkg.Path() != p.PkgPath("ignorefiles") || fn.Signature.Recv() == nil {
+				continue
+			}
+			res := fn.Signature.Results()
+			if res.Len() != 2 || !isBoolType(res.At(0).Type()) || !isErrorType(res.At(1).Type()) {
+				continue
+			}
+			if !strings.HasSuffix(types.TypeString(fn.Signature.Recv().Type(), nil), "rule") {
+				continue
+			}
+			for i, r := range returnsOf(fn) {
+				if !mayReturnNilErr(r) {
+					continue
+				}
+				n++
+				ok := true
+				for _, v := range returnValues(r, 0) {
+					vv := canon(v)
+					if ph, isPhi := vv.(*ssa.Phi); isPhi {
+						for _, e := range ph.Edges {
+							cl, isCall := canon(e).(*ssa.Call)
+							if !isCall || !isMethod(calleeObj(cl), "regexp", "Regexp", "MatchString") {
+								ok = false
+							}
+						}
+						continue
+					}
+					cl, isCall := vv.(*ssa.Call)
+					if !isCall || !isMethod(calleeObj(cl), "regexp", "Regexp", "MatchString") {
+						ok = false
+					}
+				}
+				c.check(ok, id, p.FuncName(fn), fmt.Sprintf("answer %d is the pattern's", i), p.Pos(r.Pos()), "the result of regex.MatchString", "the matcher answers without asking the compiled pattern (a constant, a prefix or segment comparison): that answer has to coincide with the pattern for every path, and nothing shows that it does")
+			}
+		}
+		c.check(n > 0, id, "-", "rule matcher found", "-", fmt.Sprintf("%d answering return(s)", n), "no (bool, error) method of the rule type found")
+	}
+}
+
+// ruleAcceptedLinkIsCreated — what the link validator accepts, Unpack creates.
+func ruleAcceptedLinkIsCreated(id string) func(*Checker) {
+	return func(c *Checker) {
+		c.rule(id, "In Unpack, every path from the accepted edge of the link validator reaches os.Symlink before any return: a second refusal between the validator's yes and the creation (a 'hardening' that rejects `..` after a directory link, say) makes Unpack refuse slugs that Pack produces from trees whose links are relative and stay inside.", 1)
+		u := getUnpackCtx(c, id)
+		if u == nil {
+			return
+		}
+		p := c.P
+		n := 0
+		for _, fn := range sortedFuncs(p.family(u.Unpack)) {
+			for _, ci := range callsTo(fn, func(o *types.Func) bool { return isFunc(o, "os", "Symlink") }) {
+				v, _ := p.validatorGuard(ci, 0)
+				if v == nil {
+					continue
+				}
+				n++
+				b0 := extractOf(v, 0)
+				tE, _ := boolEdges(fn, b0)
+				okAll := len(tE) > 0
+				where := ""
+				for _, e := range tE {
+					okp, off := mustPassFromBlock(e.To().Instrs[0], func(in ssa.Instruction) bool {
+						cl, ok := in.(*ssa.Call)
+						return ok && isFunc(calleeObj(cl), "os", "Symlink")
+					})
+					if !okp {
+						okAll = false
+						if off != nil {
+							where = p.Pos(off.Pos())
+						}
+					}
+				}
+				c.check(okAll, id, p.FuncName(fn), "accepted link created", p.Pos(ci.Pos()), "no return between the validator's yes and os.Symlink", "a link the validator accepted can still be refused (return at "+where+") before it is created: Unpack rejects slugs Pack made from legitimate trees")
+			}
+		}
+		c.check(n > 0, id, "-", "guarded link creation found", "-", fmt.Sprintf("%d site(s)", n), "no os.Symlink on the accepted edge of a validator found")
+	}
+}
+
+// ruleURLHostUntouched — the host of a package URL is never rewritten.
+func ruleURLHostUntouched(id string) func(*Checker) {
+	return func(c *Checker) {
+		c.rule(id, "No function of the address package stores into the Host field of a url.URL anything but that same field's value case-folded: a host rebuilt from Hostname() and Port() loses the brackets of an IPv6 literal, and the address then prints to a string that no longer parses.", 0)
+		p := c.P
+		n := 0
+		for _, fn := range p.Funcs {
+			if fn.Package() == nil || fn.Package().Pkg.Path() != p.PkgPath("sourceaddrs") {
+				continue
+			}
+			eachInstr(fn, func(in ssa.Instruction) {
+				st, ok := in.(*ssa.Store)
+				if !ok {
+					return
+				}
+				fa, ok := st.Addr.(*ssa.FieldAddr)
+				if !ok || !isURLField(fa) || fieldOf(fa).Name() != "Host" {
+					return
+				}
+				n++
+				okv := false
+				if cl, ok := canon(st.Val).(*ssa.Call); ok && (isFunc(calleeObj(cl), "strings", "ToLower")) {
+					if g := loadedField(cl.Call.Args[0]); g != nil && g == fieldOf(fa) {
+						okv = true
+					}
+				}
+				c.check(okv, id, p.FuncName(fn), "URL host rewritten", p.Pos(st.Pos()), "u.Host = strings.ToLower(u.Host)", "the Host of a package URL is overwritten with something other than its own case-folded value (Hostname() drops the brackets of an IPv6 literal; a port removed or added changes which package it is): the address no longer prints to what it was parsed from")
+			})
+		}
+		c.pass(id, "-", "stores inspected", "-", fmt.Sprintf("%d store(s) into URL.Host", n))
+	}
+}
+
+// ruleNoSingleMember — the gzip reader of Unpack reads every member.
+func ruleNoSingleMember(id string) func(*Checker) {
+	return func(c *Checker) {
+		c.rule(id, "Nothing in the slug package calls (*gzip.Reader).Multistream: with multistream off the reader stops at the end of the first gzip member, a slug whose tar stream spans several members is unpacked in part and reported as a success, and damage in later members is never read.", 0)
+		p := c.P
+		n := 0
+		for _, fn := range p.Funcs {
+			if !p.InModule(fn) {
+				continue
+			}
+			for _, ci := range callsTo(fn, func(o *types.Func) bool { return isMethod(o, "compress/gzip", "Reader", "Multistream") }) {
+				n++
+				c.fail(id, p.FuncName(fn), "Multistream called on the gzip reader", p.Pos(ci.Pos()), "the decompressor is told to stop after the first member: whatever the archive holds after it is neither unpacked nor checked")
+			}
+		}
+		c.pass(id, "-", "calls inspected", "-", fmt.Sprintf("%d Multistream call(s)", n))
+	}
+}
+
+// ruleSelectionBeforeAnswer — a registry source is answered only after the version was selected.
+func ruleSelectionBeforeAnswer(id string) func(*Checker) {
+	return func(c *Checker) {
+		c.rule(id, "In the function that resolves a registry source, every return without an error lies after the NewestInSet selection over the allowed set: an answer taken from the table of resolved versions before the selection (a 'pin fast path' that reads the allowed set with List() instead of asking Has()) can hand out a version the set does not allow, or an older one than the greatest allowed.", 1)
+		p := c.P
+		n := 0
+		for _, fn := range p.Funcs {
+			if !inBundlePkg(p, fn) {
+				continue
+			}
+			var sel []*ssa.Call
+			for _, ci := range callsIn(fn) {
+				if o := calleeObj(ci); o != nil && o.Name() == "NewestInSet" {
+					if cl, ok := ci.(*ssa.Call); ok {
+						sel = append(sel, cl)
+					}
+				}
+			}
+			if len(sel) == 0 {
+				continue
+			}
+			for i, r := range successReturns(fn) {
+				n++
+				after := false
+				for _, s := range sel {
+					if dominates(s, r) {
+						after = true
+					}
+				}
+				c.check(after, id, p.FuncName(fn), fmt.Sprintf("success return %d after the selection", i), p.Pos(r.Pos()), "dominated by the NewestInSet call", "a source address is returned on a path that has not selected the version with NewestInSet over the allowed set")
+			}
+		}
+		c.check(n > 0, id, "-", "selecting function found", "-", fmt.Sprintf("%d return(s)", n), "no function calls NewestInSet any more")
+	}
+}
+
+// ruleForwardRefusesUnknownOnly — a forward lookup fails for an unknown package and for nothing else.
+func ruleForwardRefusesUnknownOnly(id string) func(*Checker) {
+	return func(c *Checker) {
+		c.rule(id, "In the Bundle's forward lookups (LocalPathFor…) every error return lies on the not-found edge of a lookup in one of the bundle's tables (or passes on the error of another forward lookup): a refusal that depends on the spelling of the sub-path — a backslash, a dot — makes an address that the reverse lookup hands out impossible to translate back.", 3)
+		p := c.P
+		for _, fn := range p.Funcs {
+			if !inBundlePkg(p, fn) || fn.Parent() != nil || !strings.Contains(p.FuncName(fn), "Bundle).LocalPathFor") {
+				continue
+			}
+			// not-found edges of comma-ok lookups
+			var miss []Edge
+			eachInstr(fn, func(in ssa.Instruction) {
+				lk, ok := in.(*ssa.Lookup)
+				if !ok || !lk.CommaOk {
+					return
+				}
+				if okv := extractOf2(lk, 1); okv != nil {
+					_, f := boolEdges(fn, okv)
+					miss = append(miss, f...)
+				}
+			})
+			// error edges of calls to other forward lookups
+			for _, ci := range callsIn(fn) {
+				cl, ok := ci.(*ssa.Call)
+				if !ok {
+					continue
+				}
+				g := cl.Common().StaticCallee()
+				if g == nil || !strings.Contains(p.FuncName(g), "LocalPathFor") {
+					continue
+				}
+				_, errE := okEdgesOfCall(cl)
+				miss = append(miss, errE...)
+			}
+			// the fall-through of a type switch (an address of a kind that has no local path)
+			eachInstr(fn, func(in ssa.Instruction) {
+				ta, ok := in.(*ssa.TypeAssert)
+				if !ok || !ta.CommaOk {
+					return
+				}
+				if okv := extractOf2(ta, 1); okv != nil {
+					_, f := boolEdges(fn, okv)
+					miss = append(miss, f...)
+				}
+			})
+			for i, r := range returnsOf(fn) {
+				if mayReturnNilErr(r) {
+					continue
+				}
+				c.check(len(miss) > 0 && guarded(r.Block(), miss), id, p.FuncName(fn), fmt.Sprintf("error return %d only for an unknown package", i), p.Pos(r.Pos()), "on a not-found edge", "the forward lookup can fail although the package is in the bundle: the error does not hang on a table lookup that found nothing")
+			}
+		}
+	}
+}
+
+// ruleBodyWritesAccounted — every body byte written to the archive is counted.
+func ruleBodyWritesAccounted(id string) func(*Checker) {
+	return func(c *Checker) {
+		c.rule(id, "In the Pack walk, every call that writes entry content to the tar writer — io.Copy / io.CopyBuffer / io.CopyN into it, or its Write method — is followed, on every path to a return without an error, by the addition to Meta.Size: a second way of writing a body (a cached copy served with tarW.Write and an early return) that skips the accounting leaves Meta.Size below the bytes stored.", 1)
+		p := c.P
+		pc := getPackCtx(c, id)
+		if pc == nil {
+			return
+		}
+		n := 0
+		for _, w := range pc.Walks {
+			fn := w.Fn
+			isTarW := func(v ssa.Value) bool {
+				t := v.Type()
+				if mi, ok := v.(*ssa.MakeInterface); ok {
+					t = mi.X.Type()
+				}
+				return strings.Contains(t.String(), "archive/tar.Writer")
+			}
+			isAccount := func(in ssa.Instruction) bool {
+				st, ok := in.(*ssa.Store)
+				if !ok {
+					return false
+				}
+				fa, ok := st.Addr.(*ssa.FieldAddr)
+				return ok && fieldOf(fa) != nil && fieldOf(fa).Name() == "Size" && isNamedT(derefType(fa.X.Type()), "Meta")
+			}
+			for _, ci := range callsIn(fn) {
+				cl, ok := ci.(*ssa.Call)
+				if !ok {
+					continue
+				}
+				o := calleeObj(cl)
+				body := false
+				switch {
+				case isFunc(o, "io", "Copy") || isFunc(o, "io", "CopyBuffer") || isFunc(o, "io", "CopyN"):
+					body = len(cl.Call.Args) > 0 && isTarW(cl.Call.Args[0])
+				case isMethod(o, "archive/tar", "Writer", "Write"):
+					body = true
+				}
+				if !body {
+					continue
+				}
+				n++
+				okp, off := mustPassOK(cl, isAccount, func(r *ssa.Return) bool { return !mayReturnNilErr(r) }, nil)
+				where := ""
+				if off != nil {
+					where = " (return at " + p.Pos(off.Pos()) + ")"
+				}
+				c.check(okp, id, p.FuncName(fn), "body write counted in Meta.Size", p.Pos(cl.Pos()), "every success path after the write adds to Meta.Size", "content is written to the archive and the walk can return success without having added it to Meta.Size"+where)
+			}
+		}
+		c.check(n > 0, id, "-", "body write found", "-", fmt.Sprintf("%d write(s)", n), "no call writes entry content to the tar writer")
+	}
+}
+
+// ruleTypePrefixAnchored — the "type::" prefix of a remote address is found at its start only.
+func ruleTypePrefixAnchored(id string) func(*Checker) {
+	return func(c *Checker) {
+		c.rule(id, "The optional source-type prefix of a remote address is recognised by a package-level regular expression (a constant, analysed with regexp/syntax, not run) that is anchored at the start of the text and whose part in front of the literal \"::\" can match neither \":\" nor \"/\" nor \"[\"; nothing in the remote-source parser looks for \"::\" with strings.Cut/Index/Split: an unanchored split takes the \"::\" of an IPv6 literal, of a query value or of a path segment for the type separator, and an address without an explicit type — https://[::1]/m.tgz — is refused although it follows the grammar.", 1)
+		p := c.P
+		parse := p.Fn(addrPkg, "ParseRemoteSource")
+		if parse == nil {
+			c.anchorMissing(id, "ParseRemoteSource")
+			return
+		}
+		// no textual search for "::"
+		for _, fn := range sortedFuncs(p.family(parse)) {
+			for _, ci := range callsIn(fn) {
+				o := calleeObj(ci)
+				if o == nil || o.Pkg() == nil || o.Pkg().Path() != "strings" {
+					continue
+				}
+				for _, a := range ci.Common().Args {
+					if k, isC := constString(a); isC && strings.Contains(k, "::") {
+						c.fail(id, p.FuncName(fn), "\"::\" searched with strings."+o.Name(), p.Pos(ci.Pos()), "the type separator is looked for anywhere in the text: the first \"::\" of an address without an explicit type can be inside its URL")
+					}
+				}
+			}
+		}
+		// the pattern
+		found := 0
+		for _, fn := range p.Funcs {
+			if fn.Name() != "init" || fn.Package() == nil || fn.Package().Pkg.Path() != p.PkgPath("sourceaddrs") {
+				continue
+			}
+			eachInstr(fn, func(in ssa.Instruction) {
+				st, ok := in.(*ssa.Store)
+				if !ok {
+					return
+				}
+				g, ok := st.Addr.(*ssa.Global)
+				if !ok {
+					return
+				}
+				cl, ok := st.Val.(*ssa.Call)
+				if !ok || !isFunc(calleeObj(cl), "regexp", "MustCompile") {
+					return
+				}
+				src, isC := constString(cl.Call.Args[0])
+				if !isC || !strings.Contains(src, "::") {
+					return
+				}
+				// used by the remote-source parser?
+				used := false
+				for _, f2 := range sortedFuncs(p.family(parse)) {
+					eachInstr(f2, func(in2 ssa.Instruction) {
+						if ld, ok := in2.(*ssa.UnOp); ok && ld.X == ssa.Value(g) {
+							used = true
+						}
+					})
+				}
+				if !used {
+					return
+				}
+				found++
+				re, err := syntax.Parse(src, syntax.Perl)
+				if err != nil {
+					c.fail(id, g.Name(), "type-prefix pattern", p.Pos(g.Pos()), "the pattern does not parse: "+err.Error())
+					return
+				}
+				re = re.Simplify()
+				var seq []*syntax.Regexp
+				if re.Op == syntax.OpConcat {
+					seq = re.Sub
+				} else {
+					seq = []*syntax.Regexp{re}
+				}
+				anchored := len(seq) > 0 && (seq[0].Op == syntax.OpBeginText || seq[0].Op == syntax.OpBeginLine)
+				c.check(anchored, id, g.Name(), "anchored at the start", p.Pos(g.Pos()), "^…", "the pattern is not anchored at the start of the text: a \"::\" further in is taken for the type separator")
+				at := -1
+				for i, s := range seq {
+					if s.Op == syntax.OpLiteral && strings.Contains(string(s.Rune), "::") {
+						at = i
+						break
+					}
+				}
+				if at < 0 {
+					c.fail(id, g.Name(), "literal \"::\"", p.Pos(g.Pos()), "no literal \"::\" at the top level of the pattern")
+					return
+				}
+				bad := ""
+				for _, s := range seq[:at] {
+					for _, ch := range []rune{':', '/', '['} {
+						if canMatchAny(s, ch) {
+							bad += string(ch)
+						}
+					}
+				}
+				c.check(bad == "", id, g.Name(), "type part cannot contain URL punctuation", p.Pos(g.Pos()), "letters and digits only in front of \"::\"", "the part of the pattern in front of \"::\" can match "+strconv.Quote(bad)+": a scheme or an IPv6 literal can be swallowed as a source type")
+			})
+		}
+		c.check(found > 0, id, p.FuncName(parse), "type prefix found by a package-level pattern", p.Pos(parse.Pos()), fmt.Sprintf("%d pattern(s)", found), "the remote-source parser no longer uses a package-level regular expression containing \"::\" to find the type prefix: how the prefix is delimited cannot be established")
+	}
+}
+
+// ruleSameKeyForm — every access of one table uses keys of one form.
+func ruleSameKeyForm(id string) func(*Checker) {
+	return func(c *Checker) {
+		c.rule(id, "If any access (lookup or store) of a map field of Builder or Bundle uses a key that was passed through a module function from the key type to itself (a canonicaliser: lower-cased host, cleaned path), then every access of that field, and of every other map field of the same struct with the same key type, does: a table written under canonical keys and read under the caller's spelling answers \"not there\" for every key that differs from its canonical form — the metadata of a package whose host is spelled GitHub.com.", 0)
+		p := c.P
+		type access struct {
+			fn    *ssa.Function
+			pos   string
+			canon string // name of the T→T module function the key went through, or ""
+			field *types.Var
+			key   types.Type
+			owner string
+		}
+		var accs []access
+		canonOf := func(k ssa.Value) string {
+			v := canon(k)
+			if ex, ok := v.(*ssa.Extract); ok {
+				v = ex.Tuple
+			}
+			cl, ok := v.(*ssa.Call)
+			if !ok {
+				return ""
+			}
+			g := cl.Common().StaticCallee()
+			if g == nil || !p.InModule(g) || len(g.Params) == 0 || g.Signature.Results().Len() == 0 {
+				return ""
+			}
+			rt := g.Signature.Results().At(0).Type()
+			for _, prm := range g.Params {
+				if types.Identical(prm.Type(), rt) && types.Identical(rt, k.Type()) {
+					return g.Name()
+				}
+			}
+			return ""
+		}
+		for _, fn := range p.Funcs {
+			if !inBundlePkg(p, fn) {
+				continue
+			}
+			eachInstr(fn, func(in ssa.Instruction) {
+				var m, k ssa.Value
+				switch x := in.(type) {
+				case *ssa.Lookup:
+					m, k = x.X, x.Index
+				case *ssa.MapUpdate:
+					m, k = x.Map, x.Key
+				default:
+					return
+				}
+				ld, ok := m.(*ssa.UnOp)
+				if !ok || ld.Op != token.MUL {
+					return
+				}
+				fa, ok := ld.X.(*ssa.FieldAddr)
+				if !ok || fieldOf(fa) == nil {
+					return
+				}
+				owner := types.TypeString(derefType(fa.X.Type()), nil)
+				if !strings.HasSuffix(owner, ".Builder") && !strings.HasSuffix(owner, ".Bundle") {
+					return
+				}
+				accs = append(accs, access{fn, p.Pos(in.Pos()), canonOf(k), fieldOf(fa), k.Type(), owner})
+			})
+		}
+		// groups: owner + key type
+		type gk struct{ owner, key string }
+		groups := map[gk][]access{}
+		for _, a := range accs {
+			g := gk{a.owner, types.TypeString(a.key, nil)}
+			groups[g] = append(groups[g], a)
+		}
+		n := 0
+		for _, as := range groups {
+			forms := map[string]int{}
+			for _, a := range as {
+				forms[a.canon]++
+			}
+			if len(forms) < 2 {
+				continue
+			}
+			for _, a := range as {
+				if a.canon != "" {
+					continue
+				}
+				n++
+				other := ""
+				for f := range forms {
+					if f != "" {
+						other = f
+					}
+				}
+				c.fail(id, p.FuncName(a.fn), "table "+a.field.Name()+" accessed with the key as given", a.pos, "other accesses of this struct's tables with the same key type pass the key through "+other+" first; this one uses it as the caller spelled it: an entry stored under the canonical key is not found (or is stored twice)")
+			}
+		}
+		c.pass(id, "-", "table accesses compared", "-", fmt.Sprintf("%d access(es), %d in a mixed group without canonicalisation", len(accs), n))
+	}
 }
